@@ -434,7 +434,7 @@ impl Scenario for C19 {
     fn runs(&self, tier: Tier) -> u64 {
         match tier {
             Tier::Quick => 4_000,
-            Tier::Thorough => 300_000,
+            Tier::Thorough => 200_000,
         }
     }
     fn generate(&self, rng: &mut Prng, _tier: Tier) -> Spec {
